@@ -123,6 +123,15 @@ def r3_order_taint(repo, rep):
                 sink = bool(re.search(r'geo_index|_array|return |self\.df', txt)) and 'sorted(' not in txt and 'set(' not in txt.split('=')[0]
                 wrapped = isinstance(getattr(sub, '_parent', None), ast.Call) and norm(sub._parent.func) in ('sorted', 'set', 'frozenset', 'len', 'sum', 'any', 'all')
                 n += 1
+                # the produced sequence lists the geos themselves only when its element is the iteration variable (or the
+                # set is listed directly); a sequence of derived objects handed back by a helper is consumed in a way the
+                # rule does not follow
+                geos_themselves = not isinstance(sub, (ast.ListComp, ast.GeneratorExp)) or (
+                    isinstance(sub.elt, ast.Name) and any(isinstance(g_.target, ast.Name) and g_.target.id == sub.elt.id for g_ in sub.generators))
+                if sink and not wrapped and not geos_themselves and not re.search(r'geo_index|_array|self\.df', txt):
+                  rep.undecided('R3/order-taint', '%s: iteration over the unordered %s' % (f.name, norm(x)[:30]),
+                                'a sequence of objects derived from the elements of the set is returned; how its order is used is not followed', f.loc(sub))
+                  continue
                 rep.check(not sink or wrapped, 'R3/order-taint', '%s: iteration over the unordered %s does not fix an order' % (f.name, norm(x)[:30]), f.qualname,
                           txt[:120], 'an ordered sequence is produced by iterating the unordered set `%s` and used as geo order (%s): the result depends on hash order, i.e. on how IDs are spelled'
                           % (norm(x)[:40], txt[:80]), f.loc(sub))
